@@ -5,5 +5,5 @@ FAMILIES = [{'name': 'all', 'ids': [1, 2, 3, 4], 'vals': [5], 'maxv': 7, 'maxops
 
 
 def run(prop, tier, replay):
-    return T.run(prop, tier, FAMILIES, {'LatestUnreadable', 'Panic', 'VersionsMonotone', 'WellFormed'}, reread=False,
+    return T.run(prop, tier, FAMILIES, {'LatestUnreadable', 'Panic', 'VersionsMonotone', 'WellFormed'}, replay=replay, reread=False,
                  assumptions=['concurrency is expressed as stale read versions + commit order (commit atomicity is C01/C02)', 'scenarios keep the key column unique (lance does not enforce keys)', 'conflict_retries = 0 so a retryable conflict surfaces instead of re-executing'])
